@@ -28,12 +28,47 @@ def _callee_fns(ctx, fn, call):
     return out
 
 
-def _passed(g, bound, call, name):
+def _local_dict(fn, name):
+    """keys -> value nodes of a local that is bound exactly once, to dict(k=v, ...) or {'k': v, ...}
+    and never updated; None when it is anything else"""
+    if fn is None:
+        return None
+    binds = [n for n in own_nodes(fn.node) if isinstance(n, (ast.Assign, ast.AugAssign, ast.AnnAssign)) and
+             any(isinstance(t, ast.Name) and t.id == name
+                 for t in (n.targets if isinstance(n, ast.Assign) else [n.target]))]
+    if len(binds) != 1 or not isinstance(binds[0], ast.Assign):
+        return None
+    for n in own_nodes(fn.node):
+        if isinstance(n, ast.Subscript) and isinstance(n.value, ast.Name) and n.value.id == name and \
+                isinstance(n.ctx, (ast.Store, ast.Del)):
+            return None
+        if isinstance(n, ast.Call) and isinstance(n.func, ast.Attribute) and isinstance(n.func.value, ast.Name) and \
+                n.func.value.id == name and n.func.attr in ('update', 'pop', 'setdefault', 'clear', 'popitem'):
+            return None
+    v = binds[0].value
+    if isinstance(v, ast.Call) and isinstance(v.func, ast.Name) and v.func.id == 'dict' and not v.args and \
+            all(k.arg is not None for k in v.keywords):
+        return {k.arg: k.value for k in v.keywords}
+    if isinstance(v, ast.Dict) and all(isinstance(k, ast.Constant) and isinstance(k.value, str) for k in v.keys):
+        return {k.value: val for k, val in zip(v.keys, v.values)}
+    return None
+
+
+def _passed(g, bound, call, name, fn=None):
     """The argument expression passed for parameter `name` of g:
-    ('kw'|'pos', node) | ('spread', None) | None"""
+    ('kw'|'pos', node) | ('spread', None) | None.  With `fn` (the caller) a
+    `**local` whose keys are known statically is looked through."""
     for k in call.keywords:
         if k.arg == name:
             return ('kw', k.value)
+    opaque_spread = False
+    for k in call.keywords:
+        if k.arg is None:
+            d = _local_dict(fn, k.value.id) if isinstance(k.value, ast.Name) else None
+            if d is None:
+                opaque_spread = True
+            elif name in d:
+                return ('kw', d[name])
     params = list(g.posparams)
     if bound and params:
         params = params[1:]
@@ -44,9 +79,8 @@ def _passed(g, bound, call, name):
             return ('spread', None)
         if i < len(pos):
             return ('pos', pos[i])
-    for k in call.keywords:
-        if k.arg is None:
-            return ('spread', None)
+    if opaque_spread:
+        return ('spread', None)
     return None
 
 
@@ -101,10 +135,10 @@ def r111(ctx, rep):
                     continue
                 if real:
                     n_sites += 1
-                ps = _passed(g, bound, node, 'presorted')
+                ps = _passed(g, bound, node, 'presorted', fn)
                 literal_presorted = ps is not None and ps[1] is not None and _is_true(ps[1])
                 for s in sg:
-                    p = _passed(g, bound, node, s)
+                    p = _passed(g, bound, node, s, fn)
                     construct = '%s(...): %s' % (norm(node.func), s)
                     if p is None:
                         if literal_presorted:
@@ -358,7 +392,7 @@ def r113(ctx, rep):
             for g, bound in _callee_fns(ctx, fn, node):
                 if 'presorted' not in g.params:
                     continue
-                p = _passed(g, bound, node, 'presorted')
+                p = _passed(g, bound, node, 'presorted', fn)
                 if p is None or p[1] is None:
                     continue
                 v = p[1]
